@@ -44,7 +44,7 @@ ASSUMPTIONS = [
     "gc.freeze() is called once per worker after import so that the two gc.collect() calls inside reconstruct() cost ~1 ms instead of ~130 ms; it does not change what is computed",
 ]
 BUDGET = {"quick": {"soft_s": 100}, "thorough": {"soft_s": 520}}
-MIN_EVALUATIONS = {"quick": 200, "thorough": 2000}
+MIN_EVALUATIONS = {"quick": 800, "thorough": 10000}
 REQUIRED_COUNTERS = ["eval:batch_invariance", "eval:linearity", "eval:recombination", "eval:closed_form_zero_aberration", "eval:closed_form_defocus_astigmatism"]
 EXHAUSTIVE = {"quick": False, "thorough": False}
 
@@ -67,7 +67,7 @@ ENERGIES = [60e3, 80e3, 200e3, 300e3]
 def plan(tier, seed):
     rng = np.random.default_rng([seed, 4, 777])
     specs = []
-    reps = {"quick": {"batch": 5, "linear": 4, "recombine": 6, "closed_zero": 14, "closed_aberr": 40}, "thorough": {"batch": 60, "linear": 50, "recombine": 70, "closed_zero": 160, "closed_aberr": 500}}[tier]
+    reps = {"quick": {"batch": 12, "linear": 40, "recombine": 60, "closed_zero": 120, "closed_aberr": 360}, "thorough": {"batch": 150, "linear": 600, "recombine": 900, "closed_zero": 1500, "closed_aberr": 4500}}[tier]
 
     def common(kernel):
         names = KERNELS[kernel]
